@@ -12,7 +12,10 @@
                   rr = rock_ridge.rr_version), _set_rock_ridge ('Inconsistent Rock Ridge versions'), dirs.append,
                   track_child with the duplicate retry                         -> prr_record, prr_walk, parse_rr
      dr.py        DirectoryRecord.parse: Codec.parse_dr (REUSED), XARecord.parse at offsets 0 and even(len_fi) of the
-                  bytes after the identifier ('Unused fields should be 0' | an XA record: outside the fragment), the
+                  bytes after the identifier ('Unused fields should be 0' | an XA record: outside the fragment) --
+                  [xafix = true], the code after commit ac63ee2 (a repair this model triggered): the probe is skipped
+                  when the area opens with one of the 15 SUSP signatures; [xafix = false], the code before it: a Rock
+                  Ridge name with b'XA' at bytes 6..7 of the area made open raise (ParseRRRefuted) --, the
                   15 signatures that make a RockRidge object, is_first_dir_record_of_root, bytes_to_skip from
                   parent.children[0].rock_ridge / parent.rock_ridge (three raises)    -> prr_xa, prr_skip_for
                   _add_child (check_overflow = False): bisect_left by __lt__ (ParseCore.ps_bisect / ps_lt REUSED), the
@@ -109,6 +112,9 @@ Definition prr_has_rr (su : list Z) : bool :=
   | a :: b :: _ => existsb (fun s => (fst s =? a) && (snd s =? b)) ps_rr_sigs
   | _ => false
   end.
+(* `if record[record_offset:record_offset + 2] not in susp_signatures and xa_rec.parse(...)` *)
+Definition prr_xa_probe (xafix : bool) (su : list Z) (len_fi : Z) : xa_res :=
+  if xafix && prr_has_rr su then XaNo else prr_xa su len_fi.
 
 (* (is_first_dir_record_of_root, bytes_to_skip) *)
 Definition prr_skip_for (d : qdir) (cur : list qrec) (r : drec) : presult (bool * Z) :=
@@ -231,13 +237,13 @@ Definition prr_track (d : qdir) (cur : list qrec) (child : qrec) (last : option 
   else POk (insert_at index child cur).
 
 (* ---- one record ------------------------------------------------------------------------------------------------ *)
-Definition prr_record (img : image) (d : qdir) (sl : wstate * option (list Z)) (record : list Z)
-  : presult (wstate * option (list Z)) :=
+Definition prr_record_gen (xafix : bool) (img : image) (d : qdir) (sl : wstate * option (list Z))
+           (record : list Z) : presult (wstate * option (list Z)) :=
   let '(st, last) := sl in
   match parse_dr record with
   | None => PInvalid 2
   | Some r =>
-      match prr_xa (sysuse r) (znth 32 record) with
+      match prr_xa_probe xafix (sysuse r) (znth 32 record) with
       | XaBad => PInvalid 10
       | XaYes => PUnsupported 1
       | XaNo =>
@@ -271,6 +277,8 @@ Definition prr_record (img : image) (d : qdir) (sl : wstate * option (list Z)) (
       end
   end.
 
+Definition prr_record := prr_record_gen true.
+
 (* ---- the walk ---------------------------------------------------------------------------------------------------- *)
 (* dir_block_range, not clipped by the length of the file (see the header) *)
 Definition prr_range (ext len : Z) : list Z :=
@@ -284,7 +292,7 @@ Definition prr_begin_dir (st : wstate) (q : list qdir) (seen : list Z) : wstate 
 Definition prr_end_dir (st : wstate) : wstate :=
   mk_wst (w_dirs st ++ [mk_pdir (w_cur st) (w_rrk st)]) [] [] (w_queue st) (w_seen st) (w_blocks st) (w_ver st).
 
-Fixpoint prr_walk (fuel : nat) (img : image) (st : wstate) : presult wstate :=
+Fixpoint prr_walk_gen (xafix : bool) (fuel : nat) (img : image) (st : wstate) : presult wstate :=
   match fuel with
   | O => PFuel
   | S f =>
@@ -297,9 +305,9 @@ Fixpoint prr_walk (fuel : nat) (img : image) (st : wstate) : presult wstate :=
               match Master.ms_img_read img (qd_ext d) (qd_len d) with
               | None => PUnsupported 3
               | Some data =>
-                  match ps_scan (prr_record img d) (S (length data)) data 0 (qd_len d)
+                  match ps_scan (prr_record_gen xafix img d) (S (length data)) data 0 (qd_len d)
                                 (prr_begin_dir st q seen, None) with
-                  | POk (st', _) => prr_walk f img (prr_end_dir st')
+                  | POk (st', _) => prr_walk_gen xafix f img (prr_end_dir st')
                   | PInvalid w => PInvalid w
                   | PUnsupported w => PUnsupported w
                   | PFuel => PFuel
@@ -309,15 +317,19 @@ Fixpoint prr_walk (fuel : nat) (img : image) (st : wstate) : presult wstate :=
       end
   end.
 
+Definition prr_walk := prr_walk_gen true.
+
 Definition prr_init (root_ext root_len : Z) : wstate :=
   mk_wst [] [] [] [mk_qdir root_ext root_len true [0] None] [] [] V_unset.
 Definition prr_graph (st : wstate) : rgraph := mk_rgraph (w_dirs st) (w_blocks st) (w_ver st).
 
 (* PyCdlib._open_fp -> _walk_directories(self.pvd, ..) on the medium [img], the root record taken from the PVD *)
-Definition parse_rr (fuel : nat) (img : image) (root_ext root_len : Z) : presult rgraph :=
-  match prr_walk fuel img (prr_init root_ext root_len) with
+Definition parse_rr_gen (xafix : bool) (fuel : nat) (img : image) (root_ext root_len : Z) : presult rgraph :=
+  match prr_walk_gen xafix fuel img (prr_init root_ext root_len) with
   | POk st => POk (prr_graph st)
   | PInvalid w => PInvalid w
   | PUnsupported w => PUnsupported w
   | PFuel => PFuel
   end.
+(* the code as it is in /repo *)
+Definition parse_rr := parse_rr_gen true.
